@@ -1611,7 +1611,8 @@ def k23_filler(core, rep):
     cv = core.func('habutax/pdf_fields.py', 'ChoicePDFField', 'value')
     raises = [n for n in ast.walk(cv.node) if isinstance(n, ast.Raise) and isinstance(n.exc, ast.Call) and call_name(n.exc) == 'PDFInvalidChoiceValue']
     g = cv.cfg
-    ok = len(raises) == 1 and all(any('not in self._choices' in t_ and pol is False for t_, pol in g.branch_facts(n)) for n in g.nodes if n.kind == 'stmt' and isinstance(n.ast, ast.Return))
+    ok = len(raises) == 1 and all(any(('not in self._choices' in t_ and pol is False) or (' in self._choices' in t_ and ' not in ' not in t_ and pol is True)
+                                      for t_, pol in g.branch_facts(n)) for n in g.nodes if n.kind == 'stmt' and isinstance(n.ast, ast.Return))
     rep.ob('K23c', 'ChoicePDFField/outside-choices-raises', ok, 'a value outside the choice list does not raise PDFInvalidChoiceValue', _w(cv))
     # the text that is tested for membership is the text that is returned: testing a converted copy (upper-cased, stripped)
     # lets a value through that is not one of the choices as written
@@ -2110,7 +2111,10 @@ def k36_mutable_defaults_untouched(core, rep):
                 continue
             n += 1
             name = prm.arg
-            rebound_first = False
+            # rebinding the name to a fresh object first (`x = list(x)`) ends the aliasing with the default
+            fresh = [x.lineno for x in fn.node.body if isinstance(x, ast.Assign) and any(isinstance(t_, ast.Name) and t_.id == name for t_ in x.targets)
+                     and isinstance(x.value, (ast.Call, ast.List, ast.Dict, ast.Set, ast.ListComp, ast.DictComp, ast.SetComp, ast.BinOp, ast.Subscript))]
+            first_fresh = min(fresh) if fresh else None
             muts = []
             for x in ast.walk(fn.node):
                 if isinstance(x, ast.Call) and isinstance(x.func, ast.Attribute) and isinstance(x.func.value, ast.Name) and x.func.value.id == name \
@@ -2122,6 +2126,8 @@ def k36_mutable_defaults_untouched(core, rep):
                             muts.append(x)
                         if isinstance(x, ast.AugAssign) and isinstance(t_, ast.Name) and t_.id == name:
                             muts.append(x)
+            if first_fresh is not None:
+                muts = [m_ for m_ in muts if m_.lineno < first_fresh]
             rep.ob('K36', f'{fn.qual}({name}={unparse(dflt)})', not muts,
                    f'{fn.qual}() changes its parameter `{name}` in place (`{unparse(muts[0], 50) if muts else ""}`), and `{name}` defaults to the literal {unparse(dflt)}: the change is kept '
                    'in the default object, so every later call that relies on the default - another solve or fill in the same process - starts with what this one left behind',
@@ -2513,7 +2519,10 @@ def k27_complete_diagnostics(core, rep):
     for gname in ('unmet_input_dependencies', 'unmet_field_dependencies'):
         gf = core.method('Solver', gname)
         rets = [r for r in ast.walk(gf.node) if isinstance(r, ast.Return)]
-        ok = len(rets) == 1 and isinstance(rets[0].value, ast.Call) and call_name(rets[0].value) == '_unmet_dependencies' and len(rets[0].value.args) == 1 and self_attr(rets[0].value.args[0])
+        rv = rets[0].value if len(rets) == 1 else None
+        if isinstance(rv, ast.Call) and isinstance(rv.func, ast.Name) and rv.func.id in ('dict', 'OrderedDict') and len(rv.args) == 1 and not rv.keywords:
+            rv = rv.args[0]                       # a copy of the whole table
+        ok = isinstance(rv, ast.Call) and call_name(rv) == '_unmet_dependencies' and len(rv.args) == 1 and self_attr(rv.args[0])
         rep.ob('K27', f'{gname}/returns-every-recorded-dependency', bool(ok),
                f'Solver.{gname}() returns `{unparse(rets[0].value, 60) if rets else None}` instead of the full table of recorded dependencies: entries can be left out of the failure report '
                '(lines blocked behind each other are then not named at all)', _w(gf))
